@@ -36,6 +36,9 @@ type CLCase struct {
 	SrvLogger bool   `json:"srv_logger"`
 	CliLogger bool   `json:"cli_logger"`
 	Seed      uint64 `json:"seed"`
+	// widths of the varints the raw peer writes (Via "raw"; see varintWidth in rawlib_test.go)
+	VSeed uint64 `json:"vseed,omitempty"`
+	VDens int    `json:"vdens,omitempty"`
 }
 
 func genCLCase(t *rapid.T) CLCase {
@@ -81,6 +84,9 @@ func genCLCase(t *rapid.T) CLCase {
 	c.RTTms = rapid.SampledFrom([]int{2, 20, 60}).Draw(t, "rtt")
 	c.SrvLogger = rapid.Bool().Draw(t, "srvlogger")
 	c.CliLogger = rapid.Bool().Draw(t, "clilogger")
+	if c.Via == "raw" {
+		c.VSeed, c.VDens = genVarintEnc(t)
+	}
 	return c
 }
 
@@ -142,6 +148,11 @@ type clOutcome struct {
 func checkCL(c CLCase, u *vf.Unit) *vf.Verdict {
 	u.Journal(c)
 	var v *vf.Verdict
+	setVarintEnc(c.VSeed, c.VDens)
+	defer setVarintEnc(0, 0)
+	if c.Via == "raw" {
+		u.Class(fmt.Sprintf("varint-density:%d", c.VDens))
+	}
 	sim.Bubble(curT, 40*time.Second, func() { v = runCL(c, u) }, func(rep sim.LeakReport) {
 		if v == nil {
 			v = vf.Bad("C18/leak/goroutines", "%d goroutines still alive 40 s (virtual) after shutdown:\n%s", rep.Count, rep.Dump)
